@@ -303,4 +303,434 @@ theorem ArrAt.splitCells {arr : List (Option Block)} {off pos hi : Nat} {pre pos
     rw [e2, setCellL_mid (by omega) (by simp; omega), render_decomp2, h1, h2]
     simp
 
+/-! ### the `_freed` dict -/
+
+theorem inFreed_add (f : Freed) (b : Block) (sz st : Nat) :
+    inFreed (addFreed f b) sz st ↔ inFreed f sz st ∨ (sz = b.size ∧ st = b.start) := by
+  unfold addFreed inFreed
+  split
+  · rename_i hany
+    simp only [List.any_eq_true, beq_iff_eq] at hany
+    obtain ⟨p0, hp0, hp0s⟩ := hany
+    constructor
+    · rintro ⟨l, hl, hst⟩
+      simp only [List.mem_map] at hl
+      obtain ⟨⟨k, l0⟩, hp, e⟩ := hl
+      by_cases hk : k = b.size
+      · subst hk
+        simp only [beq_self_eq_true, if_true, Prod.mk.injEq] at e
+        obtain ⟨rfl, rfl⟩ := e
+        by_cases hm : b.start ∈ l0
+        · simp only [hm, if_true] at hst
+          left; exact ⟨l0, hp, hst⟩
+        · simp only [hm, if_false, List.mem_append, List.mem_singleton] at hst
+          rcases hst with h | h
+          · left; exact ⟨l0, hp, h⟩
+          · right; exact ⟨rfl, h⟩
+      · have : (k == b.size) = false := by simpa using hk
+        simp only [this, Bool.false_eq_true, if_false, Prod.mk.injEq] at e
+        obtain ⟨rfl, rfl⟩ := e
+        left; exact ⟨l0, hp, hst⟩
+    · rintro (⟨l, hl, hst⟩ | ⟨rfl, rfl⟩)
+      · by_cases hk : sz = b.size
+        · refine ⟨if b.start ∈ l then l else l ++ [b.start], ?_, by split <;> simp [hst]⟩
+          simp only [List.mem_map]
+          exact ⟨(sz, l), hl, by simp [hk]⟩
+        · refine ⟨l, ?_, hst⟩
+          simp only [List.mem_map]
+          exact ⟨(sz, l), hl, by simp [hk]⟩
+      · refine ⟨if b.start ∈ p0.2 then p0.2 else p0.2 ++ [b.start], ?_, by split <;> simp_all⟩
+        simp only [List.mem_map]
+        exact ⟨p0, hp0, by simp [hp0s]⟩
+  · rename_i hany
+    simp only [List.any_eq_true, beq_iff_eq, not_exists, not_and] at hany
+    simp only [List.mem_append, List.mem_singleton, Prod.mk.injEq]
+    constructor
+    · rintro ⟨l, (hl | ⟨rfl, rfl⟩), hst⟩
+      · left; exact ⟨l, hl, hst⟩
+      · right; simpa using hst
+    · rintro (⟨l, hl, hst⟩ | ⟨rfl, rfl⟩)
+      · exact ⟨l, Or.inl hl, hst⟩
+      · exact ⟨[b.start], Or.inr ⟨rfl, rfl⟩, by simp⟩
+
+theorem inFreed_remove (f : Freed) (b : Block) (sz st : Nat) :
+    inFreed (removeFreed f b) sz st ↔ inFreed f sz st ∧ ¬(sz = b.size ∧ st = b.start) := by
+  unfold removeFreed inFreed
+  simp only [List.mem_filterMap]
+  constructor
+  · rintro ⟨l, ⟨⟨k, l0⟩, hp, e⟩, hst⟩
+    by_cases hk : k = b.size
+    · subst hk
+      simp only [beq_self_eq_true, if_true] at e
+      split at e
+      · simp at e
+      · simp only [Option.some.injEq, Prod.mk.injEq] at e
+        obtain ⟨rfl, rfl⟩ := e
+        simp only [List.mem_filter, bne_iff_ne, ne_eq] at hst
+        exact ⟨⟨l0, hp, hst.1⟩, fun h => hst.2 h.2⟩
+    · have : (k == b.size) = false := by simpa using hk
+      simp only [this, Bool.false_eq_true, if_false, Option.some.injEq, Prod.mk.injEq] at e
+      obtain ⟨rfl, rfl⟩ := e
+      exact ⟨⟨l0, hp, hst⟩, fun h => hk h.1⟩
+  · rintro ⟨⟨l0, hp, hst⟩, hne⟩
+    by_cases hk : sz = b.size
+    · subst hk
+      have hst' : st ∈ l0.filter (· != b.start) := by
+        simp only [List.mem_filter, bne_iff_ne, ne_eq]
+        exact ⟨hst, fun h => hne ⟨rfl, h⟩⟩
+      refine ⟨l0.filter (· != b.start), ⟨(b.size, l0), hp, ?_⟩, hst'⟩
+      simp only [beq_self_eq_true, if_true]
+      rw [if_neg]
+      intro h
+      rw [List.isEmpty_iff] at h
+      rw [h] at hst'
+      simp at hst'
+    · refine ⟨l0, ⟨(sz, l0), hp, ?_⟩, hst⟩
+      have : (sz == b.size) = false := by simpa using hk
+      simp [this]
+
+/-! ### the choice oracle -/
+
+theorem mem_insertNat {x y : Nat} {l : List Nat} : y ∈ insertNat x l ↔ y = x ∨ y ∈ l := by
+  induction l with
+  | nil => simp [insertNat]
+  | cons z zs ih =>
+    unfold insertNat
+    split
+    · simp
+    · simp [ih]; grind
+
+theorem length_insertNat (x : Nat) (l : List Nat) : (insertNat x l).length = l.length + 1 := by
+  induction l with
+  | nil => simp [insertNat]
+  | cons z zs ih => unfold insertNat; split <;> simp [ih]
+
+theorem mem_sortNat {y : Nat} {l : List Nat} : y ∈ sortNat l ↔ y ∈ l := by
+  induction l with
+  | nil => simp [sortNat]
+  | cons z zs ih => simp [sortNat, mem_insertNat, ih]
+
+theorem length_sortNat (l : List Nat) : (sortNat l).length = l.length := by
+  induction l with
+  | nil => simp [sortNat]
+  | cons z zs ih => simp [sortNat, length_insertNat, ih]
+
+theorem pick_mem {l : List Nat} (k : Nat) (h : l ≠ []) : ∃ st, pick l k = some st ∧ st ∈ l := by
+  have hl : 0 < l.length := List.length_pos_iff.mpr h
+  have hk : k % l.length < (sortNat l).length := by
+    rw [length_sortNat]; exact Nat.mod_lt _ hl
+  refine ⟨(sortNat l)[k % l.length], ?_, ?_⟩
+  · unfold pick; exact List.getElem?_eq_getElem hk
+  · exact mem_sortNat.mp (List.getElem_mem hk)
+
+/-- every element of the candidate set is chosen by some oracle index: quantifying over `k`
+    quantifies over every behaviour of `bi.choice` -/
+theorem pick_surjective {l : List Nat} {st : Nat} (h : st ∈ l) : ∃ k, pick l k = some st := by
+  obtain ⟨i, hi, e⟩ := List.getElem_of_mem (mem_sortNat.mpr h)
+  refine ⟨i, ?_⟩
+  unfold pick
+  rw [length_sortNat] at hi
+  rw [Nat.mod_eq_of_lt hi, List.getElem?_eq_getElem (by rw [length_sortNat]; exact hi), e]
+
+
+/-! ### phases of `free` -/
+
+theorem WInv.arrAt {a : CBA} {pre post : List Block} {b : Block} (h : WInv a (pre ++ b :: post)) :
+    ArrAt a.array a.off a.pos (a.off + a.size) pre b post := ⟨h.offLe, h.array, h.tiles⟩
+
+theorem cellL_lead {lead off x : Nat} {F : List (Option Block)} (h1 : off ≤ x) (h2 : x - off < lead) :
+    cellL (List.replicate lead none ++ F) off x = .ok none := by
+  unfold cellL
+  rw [if_neg (by omega), List.getElem?_append_left (by simpa using h2)]
+  simp [h2]
+
+/-- reading any cell of the partition: either the start of a block of the tiling, or `None` -/
+theorem cell_classify {a : CBA} {bs : List Block} (h : WInv a bs) {x : Nat}
+    (hx : a.off ≤ x ∧ x < a.off + a.size) :
+    (∃ pre b post, bs = pre ++ b :: post ∧ b.start = x ∧ a.cell x = .ok (some b)) ∨
+      a.cell x = .ok none := by
+  by_cases hp : x < a.pos
+  · right
+    unfold CBA.cell
+    rw [h.array, render]
+    have := h.offLe
+    exact cellL_lead hx.1 (by omega)
+  · obtain ⟨pre, c, post, e, hc1, hc2⟩ := tiles_cover h.tiles ⟨by omega, hx.2⟩
+    subst e
+    have ha := h.arrAt
+    by_cases hs : c.start = x
+    · left; exact ⟨pre, c, post, rfl, hs, by rw [← hs]; exact ha.cell⟩
+    · right
+      have hpl := ha.preLen
+      unfold CBA.cell
+      rw [h.array, render_decomp]
+      have e : List.replicate (c.size - 1) (none : Option Block)
+          = List.replicate (x - c.start - 1) none ++ none :: List.replicate (c.size - 1 - (x - c.start)) none := by
+        rw [replicate_glue]; congr 1; omega
+      rw [e]
+      have e2 : ∀ (P : List (Option Block)) (u v : Option Block) (L1 L2 L3 : List (Option Block)),
+          P ++ u :: ((L1 ++ v :: L2) ++ L3) = (P ++ u :: L1) ++ v :: (L2 ++ L3) := by intros; simp
+      rw [e2]
+      exact cellL_mid hx.1 (by simp; omega)
+
+theorem join_adjacent {x y : Block} (h : y.start = x.start + x.size) (hx : 0 < x.size)
+    (hy : 0 < y.size) :
+    x.join y = some ⟨x.start, x.size + y.size, false⟩ ∧
+    y.join x = some ⟨x.start, x.size + y.size, false⟩ := by
+  have a1 : x.adjoins y = true := by
+    simp only [Block.adjoins, Bool.or_eq_true, Bool.and_eq_true, decide_eq_true_eq]; omega
+  have a2 : y.adjoins x = true := by
+    simp only [Block.adjoins, Bool.or_eq_true, Bool.and_eq_true, decide_eq_true_eq]; omega
+  unfold Block.join
+  rw [a1, a2]
+  simp only [if_true, Option.some.injEq, Block.mk.injEq, and_true]
+  omega
+
+theorem getLast?_append_cons {α} (l1 : List α) (x : α) (l2 : List α) :
+    (l1 ++ x :: l2).getLast? = (x :: l2).getLast? := by
+  rw [List.getLast?_append]
+  cases h : (x :: l2).getLast? with
+  | none => simp at h
+  | some v => rfl
+
+theorem merge_winv {a : CBA} {pre post : List Block} {x y : Block}
+    (h : WInv a (pre ++ x :: y :: post)) (hx : x.used = false) (hy : y.used = false)
+    {other block : Block} (ho : (other = x ∧ block = y) ∨ (other = y ∧ block = x)) :
+    ∃ a', a.merge other block y = .ok (a', ⟨x.start, x.size + y.size, false⟩) ∧
+      WInv a' (pre ++ ⟨x.start, x.size + y.size, false⟩ :: post) ∧
+      a'.off = a.off ∧ a'.size = a.size ∧ a'.pos = a.pos := by
+  have ha := h.arrAt
+  have hs := tiles_split h.tiles
+  simp only [Tiles] at hs
+  obtain ⟨hs1, hs2, hs3, hs4, hs5⟩ := hs
+  obtain ⟨arr1, e1, e2⟩ := ha.mergeCells ⟨x.start, x.size + y.size, false⟩ rfl
+  have hj : other.join block = some ⟨x.start, x.size + y.size, false⟩ := by
+    rcases ho with ⟨rfl, rfl⟩ | ⟨rfl, rfl⟩
+    · exact (join_adjacent hs3 hs2 hs4).1
+    · exact (join_adjacent hs3 hs2 hs4).2
+  unfold CBA.merge
+  rw [hj]
+  simp only [CBA.setCell, e1, e2, bind, Except.bind, pure, Except.pure]
+  refine ⟨_, rfl, ?_, rfl, rfl, rfl⟩
+  -- membership in the twice-reduced dict does not depend on the order other/block
+  have hF : ∀ sz st, inFreed (removeFreed (removeFreed a.freed other) block) sz st ↔
+      (inFreed a.freed sz st ∧ ¬(sz = x.size ∧ st = x.start) ∧ ¬(sz = y.size ∧ st = y.start)) := by
+    intro sz st
+    rcases ho with ⟨rfl, rfl⟩ | ⟨rfl, rfl⟩ <;> simp only [inFreed_remove] <;> grind
+  have hpre : ∀ b ∈ pre, b.start < x.start := fun b hb => by
+    have := tiles_mem hs1 hb; omega
+  have hpost : ∀ b ∈ post, x.start + x.size + y.size ≤ b.start := fun b hb =>
+    (tiles_mem hs5 hb).1
+  -- the new top
+  obtain ⟨l, hl, hlt⟩ := h.top
+  rw [getLast?_append_cons] at hl
+  have htop : (post = [] ∧ y.start = a.top) ∨ (post ≠ [] ∧ y.start < a.top) := by
+    cases post with
+    | nil => left; simp at hl; exact ⟨rfl, by rw [← hlt, hl]⟩
+    | cons q post' =>
+      right
+      refine ⟨by simp, ?_⟩
+      have : l ∈ q :: post' := by
+        simp only [List.getLast?_cons_cons] at hl
+        exact List.mem_of_getLast? hl
+      have := hpost l this; omega
+  have htle : (if (y.start == a.top) = true then x.start else a.top) ≤ a.top := by
+    split <;> rename_i hc
+    · have := beq_iff_eq.mp hc; omega
+    · exact Nat.le_refl _
+  generalize htop' : (if (y.start == a.top) = true then x.start else a.top) = top' at htle ⊢
+  have hmemOld : ∀ b, b ∈ pre ++ x :: y :: post ↔ b ∈ pre ∨ b = x ∨ b = y ∨ b ∈ post := by
+    intro b; simp
+  have hmemNew : ∀ b t, b ∈ pre ++ t :: post ↔ b ∈ pre ∨ b = t ∨ b ∈ post := by
+    intro b t; simp
+  constructor
+  · exact h.offLe
+  · rfl
+  · exact tiles_join hs1 (by show 0 < x.size + y.size; omega) (by simpa [Nat.add_assoc] using hs5)
+  · -- top
+    rw [getLast?_append_cons]
+    rcases htop with ⟨rfl, ht⟩ | ⟨hne, ht⟩
+    · refine ⟨_, rfl, ?_⟩
+      simp [← htop', ht]
+    · obtain ⟨q, post', rfl⟩ := List.exists_cons_of_ne_nil hne
+      simp only [List.getLast?_cons_cons] at hl ⊢
+      refine ⟨l, hl, ?_⟩
+      have : (y.start == a.top) = false := by simp; omega
+      simp [← htop', this, hlt]
+  · -- freedSound
+    intro sz st hin
+    simp only at hin
+    rw [hmemNew]
+    have key : inFreed (removeFreed (removeFreed a.freed other) block) sz st →
+        (⟨st, sz, false⟩ : Block) ∈ pre ∨ (⟨st, sz, false⟩ : Block) ∈ post := by
+      intro hin
+      obtain ⟨h1, h2, h3⟩ := (hF sz st).mp hin
+      have := (hmemOld _).mp (h.freedSound sz st h1)
+      rcases this with hp | rfl | rfl | hp
+      · exact Or.inl hp
+      · exact absurd ⟨rfl, rfl⟩ h2
+      · exact absurd ⟨rfl, rfl⟩ h3
+      · exact Or.inr hp
+    split at hin
+    · rcases (inFreed_add _ _ _ _).mp hin with hin | ⟨rfl, rfl⟩
+      · rcases key hin with hp | hp
+        · exact Or.inl hp
+        · exact Or.inr (Or.inr hp)
+      · exact Or.inr (Or.inl rfl)
+    · rcases key hin with hp | hp
+      · exact Or.inl hp
+      · exact Or.inr (Or.inr hp)
+  · -- freedComplete
+    intro b hb hfree hlt'
+    simp only at hlt' ⊢
+    have keep : (b ∈ pre ∨ b ∈ post) →
+        inFreed (removeFreed (removeFreed a.freed other) block) b.size b.start := by
+      intro hb'
+      rw [hF]
+      have hbo : b ∈ pre ++ x :: y :: post := by
+        rw [hmemOld]; rcases hb' with hp | hp
+        · exact Or.inl hp
+        · exact Or.inr (Or.inr (Or.inr hp))
+      refine ⟨h.freedComplete b hbo hfree (by omega), ?_, ?_⟩
+      · rintro ⟨_, e⟩
+        rcases hb' with hp | hp
+        · have := hpre b hp; omega
+        · have := hpost b hp; omega
+      · rintro ⟨_, e⟩
+        rcases hb' with hp | hp
+        · have := hpre b hp; omega
+        · have := hpost b hp; omega
+    rcases (hmemNew b _).mp hb with hp | rfl | hp
+    · split
+      · exact (inFreed_add _ _ _ _).mpr (Or.inl (keep (Or.inl hp)))
+      · exact keep (Or.inl hp)
+    · rw [if_pos (by simpa using hlt')]
+      exact (inFreed_add _ _ _ _).mpr (Or.inr ⟨rfl, rfl⟩)
+    · split
+      · exact (inFreed_add _ _ _ _).mpr (Or.inl (keep (Or.inr hp)))
+      · exact keep (Or.inr hp)
+
+/-- the fields a history never changes -/
+def SameFrame (a' a : CBA) : Prop := a'.off = a.off ∧ a'.size = a.size ∧ a'.pos = a.pos
+
+theorem SameFrame.refl (a : CBA) : SameFrame a a := ⟨rfl, rfl, rfl⟩
+theorem SameFrame.trans {a b c : CBA} (h1 : SameFrame a b) (h2 : SameFrame b c) : SameFrame a c :=
+  ⟨h1.1.trans h2.1, h1.2.1.trans h2.2.1, h1.2.2.trans h2.2.2⟩
+
+theorem markFree_winv {a : CBA} {pre post : List Block} {b : Block}
+    (h : WInv a (pre ++ b :: post)) (hb : b.used = true) :
+    ∃ a', a.markFree b.start b = .ok (a', { b with used := false }) ∧
+      WInv a' (pre ++ { b with used := false } :: post) ∧ SameFrame a' a := by
+  have ha := h.arrAt
+  have e1 := ha.set { b with used := false } rfl
+  have hs := tiles_split h.tiles
+  unfold CBA.markFree
+  simp only [CBA.setCell, e1, bind, Except.bind, pure, Except.pure]
+  refine ⟨_, rfl, ?_, rfl, rfl, rfl⟩
+  have hmemOld : ∀ c, c ∈ pre ++ b :: post ↔ c ∈ pre ∨ c = b ∨ c ∈ post := by intro c; simp
+  have hmemNew : ∀ c t, c ∈ pre ++ t :: post ↔ c ∈ pre ∨ c = t ∨ c ∈ post := by intro c t; simp
+  constructor
+  · exact h.offLe
+  · rfl
+  · exact tiles_join hs.1 hs.2.1 hs.2.2
+  · obtain ⟨l, hl, hlt⟩ := h.top
+    rw [getLast?_append_cons] at hl ⊢
+    cases post with
+    | nil => simp at hl ⊢; rw [← hlt, ← hl]
+    | cons q post' => simp only [List.getLast?_cons_cons] at hl ⊢; exact ⟨l, hl, hlt⟩
+  · intro sz st hin
+    rw [hmemNew]
+    rcases (inFreed_add _ _ _ _).mp hin with hin | ⟨rfl, rfl⟩
+    · rcases (hmemOld _).mp (h.freedSound sz st hin) with hp | e | hp
+      · exact Or.inl hp
+      · rw [← e] at hb; simp at hb
+      · exact Or.inr (Or.inr hp)
+    · exact Or.inr (Or.inl rfl)
+  · intro c hc hfree hlt
+    rcases (hmemNew c _).mp hc with hp | rfl | hp
+    · exact (inFreed_add _ _ _ _).mpr (Or.inl (h.freedComplete c ((hmemOld c).mpr (Or.inl hp)) hfree hlt))
+    · exact (inFreed_add _ _ _ _).mpr (Or.inr ⟨rfl, rfl⟩)
+    · exact (inFreed_add _ _ _ _).mpr (Or.inl (h.freedComplete c ((hmemOld c).mpr (Or.inr (Or.inr hp))) hfree hlt))
+
+/-- the last block of `pre` (if any) is used -/
+def LastUsed (pre : List Block) : Prop := ∀ p, pre.getLast? = some p → p.used = true
+/-- the first block of `post` (if any) is used -/
+def HeadUsed (post : List Block) : Prop := ∀ q, post.head? = some q → q.used = true
+
+theorem mergePrev_winv {a : CBA} {pre post : List Block} {c : Block}
+    (h : WInv a (pre ++ c :: post)) (hc : c.used = false) (hpre : NoAdjFree pre) :
+    ∃ a' pre' c', a.mergePrev c.start c = .ok (a', c') ∧ WInv a' (pre' ++ c' :: post) ∧
+      SameFrame a' a ∧ c'.used = false ∧ NoAdjFree pre' ∧ LastUsed pre' ∧
+      (∀ u, u.used = true → (u ∈ pre' ++ c' :: post ↔ u ∈ pre ++ c :: post)) := by
+  have ha := h.arrAt
+  unfold CBA.mergePrev CBA.findPrevious
+  rw [ha.findPrev]
+  simp only [bind, Except.bind]
+  rcases List.eq_nil_or_concat pre with rfl | ⟨pre0, p, rfl⟩
+  · exact ⟨a, [], c, rfl, h, SameFrame.refl a, hc, hpre, by intro p hp; simp at hp, fun u _ => Iff.rfl⟩
+  · rw [List.concat_eq_append] at h hpre ⊢
+    simp only [List.getLast?_append, List.getLast?_singleton, Option.some_or]
+    by_cases hp : p.used = true
+    · simp only [hp, Bool.not_true, Bool.false_eq_true, if_false]
+      refine ⟨a, pre0 ++ [p], c, rfl, h, SameFrame.refl a, hc, hpre, ?_, fun u _ => Iff.rfl⟩
+      intro q hq; simp at hq; rw [← hq]; exact hp
+    · have hp' : p.used = false := by simpa using hp
+      simp only [hp', Bool.not_false, if_true]
+      have h' : WInv a (pre0 ++ p :: c :: post) := by simpa using h
+      obtain ⟨a', e, hw, hf⟩ := merge_winv h' hp' hc (other := p) (block := c) (Or.inl ⟨rfl, rfl⟩)
+      have hn := (noAdj_around_free (pre := pre0) (post := []) hp').mp hpre
+      refine ⟨a', pre0, _, e, hw, hf, rfl, hn.1, hn.2.2.1, ?_⟩
+      intro u hu
+      simp only [List.mem_append, List.mem_cons, List.mem_singleton, List.not_mem_nil, or_false]
+      constructor
+      · rintro (h1 | rfl | h1)
+        · exact Or.inl (Or.inl h1)
+        · simp at hu
+        · exact Or.inr (Or.inr h1)
+      · rintro ((h1 | rfl) | rfl | h1)
+        · exact Or.inl h1
+        · rw [hp'] at hu; simp at hu
+        · rw [hc] at hu; simp at hu
+        · exact Or.inr (Or.inr h1)
+
+theorem mergeNext_winv {a : CBA} {pre post : List Block} {c : Block}
+    (h : WInv a (pre ++ c :: post)) (hc : c.used = false) (hpost : NoAdjFree post) :
+    ∃ a' c' post', a.mergeNext c = .ok a' ∧ WInv a' (pre ++ c' :: post') ∧
+      SameFrame a' a ∧ c'.used = false ∧ NoAdjFree post' ∧ HeadUsed post' ∧
+      (∀ u, u.used = true → (u ∈ pre ++ c' :: post' ↔ u ∈ pre ++ c :: post)) := by
+  have ha := h.arrAt
+  have hnext := ha.next
+  unfold CBA.mergeNext CBA.findNext CBA.cell
+  rw [ha.cell]
+  simp only [bind, Except.bind, pure, Except.pure]
+  rw [hnext]
+  cases post with
+  | nil =>
+    exact ⟨a, c, [], rfl, h, SameFrame.refl a, hc, hpost, by intro q hq; simp at hq, fun u _ => Iff.rfl⟩
+  | cons q post' =>
+    simp only [List.head?_cons]
+    by_cases hq : q.used = true
+    · simp only [hq, Bool.not_true, Bool.false_eq_true, if_false]
+      refine ⟨a, c, q :: post', rfl, h, SameFrame.refl a, hc, hpost, ?_, fun u _ => Iff.rfl⟩
+      intro r hr; simp at hr; rw [← hr]; exact hq
+    · have hq' : q.used = false := by simpa using hq
+      simp only [hq', Bool.not_false, if_true]
+      obtain ⟨a', e, hw, hf⟩ := merge_winv h hc hq' (other := q) (block := c) (Or.inr ⟨rfl, rfl⟩)
+      rw [e]
+      have hn := (noAdj_around_free (pre := []) (post := post') hq').mp hpost
+      refine ⟨a', _, post', rfl, hw, hf, rfl, hn.2.1, hn.2.2.2, ?_⟩
+      intro u hu
+      simp only [List.mem_append, List.mem_cons]
+      constructor
+      · rintro (h1 | rfl | h1)
+        · exact Or.inl h1
+        · simp at hu
+        · exact Or.inr (Or.inr (Or.inr h1))
+      · rintro (h1 | rfl | rfl | h1)
+        · exact Or.inl h1
+        · rw [hc] at hu; simp at hu
+        · rw [hq'] at hu; simp at hu
+        · exact Or.inr (Or.inr h1)
+
+
 end Sc3Verif.C16
